@@ -636,7 +636,8 @@ def tlc_generate(chk, rd, universe, maxops):
     cfg = os.path.join(rd, "gen_%s_%d.cfg" % (universe, maxops))
     write_cfg(cfg, "SPECIFICATION Spec\nCONSTANTS\n  KU <- KU_%s\n  MaxOps = %d\n  Reads = FALSE\n"
                    "INVARIANTS RangeInv AtMostOnce Emit\nCHECK_DEADLOCK FALSE\n" % (universe, maxops))
-    res = C.tlc(SPEC, "FiniteMapMC", cfg, rd, workers=max(2, C.NCPU // 4), timeout=1500, parse_json=False)
+    res = C.tlc(SPEC, "FiniteMapMC", cfg, rd, workers=max(2, C.NCPU // 4), timeout=1500, parse_json=False,
+                java_opts="-Xss64m -XX:ParallelGCThreads=2")
     if not res.ok:
         raise C.Undecided("FiniteMapMC(%s) violated its own invariant: %s" % (universe, res.violation))
     scripts = {}
@@ -656,7 +657,8 @@ def tlc_modelcheck(chk, rd, universe, maxops):
     cfg = os.path.join(rd, "mc_%s_%d.cfg" % (universe, maxops))
     write_cfg(cfg, "SPECIFICATION Spec\nCONSTANTS\n  KU <- KU_%s\n  MaxOps = %d\n  Reads = TRUE\n"
                    "INVARIANTS RangeInv AtMostOnce EmitWit\nVIEW View\nCHECK_DEADLOCK FALSE\n" % (universe, maxops))
-    res = C.tlc(SPEC, "FiniteMapMC", cfg, rd, workers=max(2, C.NCPU // 4), timeout=1500, parse_json=False)
+    res = C.tlc(SPEC, "FiniteMapMC", cfg, rd, workers=max(2, C.NCPU // 4), timeout=1500, parse_json=False,
+                java_opts="-Xss64m -XX:ParallelGCThreads=2")
     if not res.ok:
         raise C.Undecided("FiniteMap(%s) violates the range-rule invariants on its own: %s" % (universe, res.violation))
     wit = {}
@@ -679,7 +681,7 @@ def validate(chk, rd, traces, label, module="FiniteMapTrace", cfg="trace.cfg", h
         for tr in traces:
             f.write(json.dumps(tr, separators=(",", ":")) + "\n")
     res = C.tlc(SPEC, module, cfg, rd, timeout=3000, copy_extra=[tpath], parse_json=False,
-                java_opts="-Xss256m " + heap)
+                java_opts="-Xss256m -XX:ParallelGCThreads=4 " + heap)
     if not res.ok:
         raise C.Undecided("%s stopped (%s): %s" % (module, label, res.violation))
     acc = set()
@@ -913,6 +915,10 @@ def check(chk):
         for sid, st, tail in crashes:
             sc = byid[sid]
             crashes_all.append(sid)
+            # run the history again on its own, flushing every log line, to see the call it dies in
+            st2, out2, _ = C.run_exe(exe, stdin=("Q 1 1\n" + sc.text()).encode(), timeout=120, merge=True)
+            tail = "alone: status %s, last lines: %s" % (st2, out2.split("\n")[-6:]) if st2 != 0 else tail
+            C.log("crash: %s %s status %s: %s" % (label, sc.key, st, tail[-400:]))
             chk.reject("crash:" + sc.key, "llgo-compiled (%s) map program died (status %s) while running history %s" % (label, st, sc.key),
                        {"config": label, "script": sc.lines, "kt": KT[sc.kt], "vt": VT[sc.vt], "status": str(st), "tail": tail})
         for sc in subset:
@@ -1033,6 +1039,7 @@ def check(chk):
                 continue
             seen.add(key)
             bad_ev = tr["ev"][at] if at < len(tr["ev"]) else None
+            C.log("rejected: %s %s event %d %s" % (label, sc.key, at + 1, json.dumps(bad_ev)))
             chk.reject(key, "history recorded from the llgo-compiled (%s) map[%s]%s is not a behaviour of FiniteMap: event %d %s "
                             "has no matching action after %s" % (label, KT[sc.kt], VT[sc.vt], at + 1, json.dumps(bad_ev),
                                                                  json.dumps(tr["ev"][max(0, at - 3):at])),
